@@ -12,6 +12,7 @@ CONSTANTS
   Leeways <- None_
   Deviations <- NoDev
   Variants <- Mech
+  Guests = FALSE
   TagTest = "truthy"
   BoxForm = "minmax"
 INVARIANT C13_AlgIsFilter
